@@ -499,6 +499,34 @@ class SimClock:
                 self.now += self.r.random()
         return self.now
 
+    # every way of reading a clock is the same simulated clock; whatever else the module `time` offers (sleep aside)
+    # is the real thing - the library may switch from time.time() to time.perf_counter() without the simulator noticing
+    def perf_counter(self):
+        return self.time()
+
+    def monotonic(self):
+        return self.time()
+
+    def process_time(self):
+        return self.time()
+
+    def time_ns(self):
+        return int(self.time() * 1e9)
+
+    def perf_counter_ns(self):
+        return int(self.time() * 1e9)
+
+    def monotonic_ns(self):
+        return int(self.time() * 1e9)
+
+    def sleep(self, seconds):
+        self.now += max(0.0, float(seconds))  # simulated: no real waiting
+
+    def __getattr__(self, name):
+        import time as _time
+
+        return getattr(_time, name)
+
 
 class _Async:
     def __init__(self, v):
